@@ -39,4 +39,20 @@ def generate(api):
     t = api.src(rel)
     api.grab(t, r"\.all\(\|v\| matches!\(v, ScalarValue::Int64\(_\) \| ScalarValue::Null\)\)", rel,
              "column is typed i64 iff every value is Int64 or Null")
+    # the operator's emit step: every group of the sink's partial is handed to the converter, and
+    # the converter writes one wire row per group (the model's `runFlows` feeds `intoPartial`
+    # of each flow unfiltered into `coordinate`; theorem C09_equals_fold_partial rests on it)
+    rel = "src/engine/core/read/flow/operators/aggregate.rs"
+    t = api.src(rel)
+    api.grab(t, r"let partial = sink\.into_partial\(\);\s*let schema = self\.get_output_schema\(\)\?;\s*"
+                r"if partial\.groups\.is_empty\(\) \{\s*return Ok\(\(\)\);\s*\}\s*"
+                r"PartialConverter::to_batches\(partial, schema, ctx, output\)\.await", rel,
+             "AggregateOp::run emits the sink's partial as it is (nothing between into_partial and to_batches)")
+    if len(api.grab(t, r"(?s)async fn run\(.*", rel, "AggregateOp::run").group(0).split("partial")) != 5:
+        raise api.Missing(f"{rel}: AggregateOp::run mentions `partial` more often than bind / is_empty / to_batches")
+    rel = "src/engine/core/read/flow/operators/agg/partial_converter.rs"
+    t = api.src(rel)
+    api.grab(t, r"for \(group_key, states\) in groups \{\s*let row = Self::build_row\(&group_key, &time_bucket, &group_by, &states, &specs\)\?;\s*builder\s*\.push_row\(&row\)",
+             rel, "PartialConverter::to_batches writes one row per group, unconditionally")
+    api.grab(t, r"let groups = partial\.groups;", rel, "to_batches iterates partial.groups itself")
     return "\n".join(out) + "\n"
